@@ -43,6 +43,7 @@ fn regime(b: &BalanceCarrier, i: usize) -> &'static str {
 pub fn check_case(_ctx: &Ctx, case: &Case, t: &mut Tally) {
     let Some((comps, fac)) = prepare(PROP, case, t) else { return };
     let dyadic_inputs = is_dyadic(case);
+    let n_steps = case.spec.n;
     let mut nontrivial = false;
     for lm in [case.lm, !case.lm] {
         let Some(ep) = eval(PROP, case, &comps, &fac, case.k, case.area, lm, t) else { return };
@@ -179,7 +180,8 @@ pub fn check_case(_ctx: &Ctx, case: &Case, t: &mut Tally) {
         match ref_eval_spec(&case.spec, &fac, case.k, case.area, lm) {
             Some(Ok(rf)) => {
                 let fl = flat(&ep);
-                let tol = Tol { atol: 1e-7, rtol: if exact { 0.0 } else { 4e-6 } };
+                // reassigned auxiliaries use annual output shares at steps without output: f32 sums over n steps
+                let tol = Tol { atol: 1e-7, rtol: if exact { 0.0 } else { 4e-6 + 1.5e-7 * n_steps as f64 } };
                 let anchored = |p: &str| -> bool {
                     p.starts_with("balance_cr.")
                         && (p.contains(".used.epus_t[") || p.contains(".used.nepus_t[") || p.contains(".used.cgnus_t[") || p.contains(".prod.t[") || p.contains(".prod.by_src_t.") || p.contains(".used.epus_by_srv_t."))
